@@ -36,15 +36,15 @@ theorem parseVcsOptions_some {c : PlanCfg} {a : PlanCli} {c' : PlanCfg}
     (vcsCall e ev s).1.n = s.n + 1 := rfl
 
 /-- `l'` extends the (reversed) log `l` by events satisfying `P` -/
-def Ext (P : Ev → Prop) (l l' : List Ev) : Prop := ∃ new, l' = new ++ l ∧ ∀ ev ∈ new, P ev
+def EvExt (P : Ev → Prop) (l l' : List Ev) : Prop := ∃ new, l' = new ++ l ∧ ∀ ev ∈ new, P ev
 
-theorem Ext.refl {P : Ev → Prop} (l : List Ev) : Ext P l l := ⟨[], by simp⟩
-theorem Ext.cons {P : Ev → Prop} {l l' : List Ev} {ev : Ev} (hp : P ev) (h : Ext P l l') :
-    Ext P l (ev :: l') := by
+theorem EvExt.refl {P : Ev → Prop} (l : List Ev) : EvExt P l l := ⟨[], by simp⟩
+theorem EvExt.cons {P : Ev → Prop} {l l' : List Ev} {ev : Ev} (hp : P ev) (h : EvExt P l l') :
+    EvExt P l (ev :: l') := by
   obtain ⟨new, rfl, hn⟩ := h
   exact ⟨ev :: new, by simp, by simpa [hp] using hn⟩
-theorem Ext.trans {P : Ev → Prop} {l l' l'' : List Ev} (h1 : Ext P l l') (h2 : Ext P l' l'') :
-    Ext P l l'' := by
+theorem EvExt.trans {P : Ev → Prop} {l l' l'' : List Ev} (h1 : EvExt P l l') (h2 : EvExt P l' l'') :
+    EvExt P l l'' := by
   obtain ⟨n1, rfl, hn1⟩ := h1
   obtain ⟨n2, rfl, hn2⟩ := h2
   refine ⟨n2 ++ n1, by simp, ?_⟩
@@ -52,8 +52,8 @@ theorem Ext.trans {P : Ev → Prop} {l l' l'' : List Ev} (h1 : Ext P l l') (h2 :
   rcases List.mem_append.1 hev with h | h
   · exact hn2 ev h
   · exact hn1 ev h
-theorem Ext.mono {P Q : Ev → Prop} {l l' : List Ev} (hpq : ∀ ev, P ev → Q ev) (h : Ext P l l') :
-    Ext Q l l' := by
+theorem EvExt.mono {P Q : Ev → Prop} {l l' : List Ev} (hpq : ∀ ev, P ev → Q ev) (h : EvExt P l l') :
+    EvExt Q l l' := by
   obtain ⟨new, rfl, hn⟩ := h
   exact ⟨new, rfl, fun ev hev => hpq ev (hn ev hev)⟩
 
@@ -66,7 +66,7 @@ theorem isUsable_shape (e : PlanEnv) (s : PState) :
 /-- the probes of `get_remote` -/
 def RemEv (ev : Ev) : Prop := ev = .cmd "ls_branches" ∨ ev = .cmd "show_remotes"
 
-theorem getRemote_ext (e : PlanEnv) (s : PState) : Ext RemEv s.evs (getRemote e s).1.evs := by
+theorem getRemote_ext (e : PlanEnv) (s : PState) : EvExt RemEv s.evs (getRemote e s).1.evs := by
   unfold getRemote
   split
   · simp only []
@@ -83,9 +83,9 @@ def TagEv (f : Bool) (ev : Ev) : Prop :=
     (f = true ∧ (ev = .cmd "ls_branches" ∨ ev = .cmd "show_remotes" ∨ ev = .cmd "fetch"))
 
 theorem getTags_ext (e : PlanEnv) (f b : Bool) (s : PState) :
-    Ext (TagEv f) s.evs (getTags e f b s).1.evs := by
+    EvExt (TagEv f) s.evs (getTags e f b s).1.evs := by
   unfold getTags
-  have h1 : Ext (TagEv f) s.evs (isUsable e s).1.evs := by
+  have h1 : EvExt (TagEv f) s.evs (isUsable e s).1.evs := by
     rcases isUsable_shape e s with ⟨h, _⟩ | h <;> rw [h]
     · exact .refl _
     · exact .cons (.inl rfl) (.refl _)
@@ -378,7 +378,7 @@ theorem plan_shape' (c0 c : PlanCfg) (a : PlanCli) (e : PlanEnv)
   extract_lets s0 at h
   split at h
   rename_i s1 o1 h1
-  have e1 : Ext (TagEv a.fetch) [] s1.evs := by
+  have e1 : EvExt (TagEv a.fetch) [] s1.evs := by
     split at h1
     · simp only [Prod.mk.injEq] at h1; rw [← h1.1]; exact .refl _
     · have := getTags_ext e a.fetch c'.scopeBranch s0
@@ -393,7 +393,7 @@ theorem plan_shape' (c0 c : PlanCfg) (a : PlanCli) (e : PlanEnv)
   clear early1
   split at h
   rename_i s2 o2 h2
-  have e2 : Ext (TagEv a.fetch) [] s2.evs := by
+  have e2 : EvExt (TagEv a.fetch) [] s2.evs := by
     split at h2
     · have := (getTags_ext e false false s1).mono (Q := TagEv a.fetch) (fun _ => TagEv.of_false)
       rw [h2] at this; exact e1.trans this
